@@ -589,6 +589,26 @@ static void prodStory(Rng &R, int move, int first) {
   exec("count");
 }
 
+// request sequencing story: one or two devices, information delivered (or withheld) step by step with the clock moving on, so that
+// the three request loops of HandleOther (product information, then configuration information, then PGN lists; at most 4 each) all run
+static void requestStory(Rng &R, int variant) {
+  exec("reset 1 " + std::to_string(pickOrigin(R)));
+  uint64_t A = (R.next() | 0x100) & 0x7fffffffffffffffULL; int s1 = (int)R.below(254), s2 = (s1 + 1 + (int)R.below(252)) % 254;
+  auto tick = [&](int s) { exec("t " + std::to_string(variant & 1 ? 1001 : 400 + R.below(1500))); exec("data " + std::to_string(s) + " 129026"); };
+  if (variant & 2) exec("data " + std::to_string(s1) + " 127250");
+  exec("claim " + std::to_string(s1) + " " + name16(A));
+  if (variant & 4) exec("claim " + std::to_string(s2) + " " + name16(A + 0x100000000ULL));
+  for (int i = 0; i < 3; i++) tick(s1);
+  if (!(variant & 8)) exec(msgLineV(126996, s1, prodBytes(prodFields(R, false))));
+  for (int i = 0; i < 6; i++) tick(i % 2 && (variant & 4) ? s2 : s1);
+  if (!(variant & 16)) { tN2kMsg m; SetN2kPGN126998(m, "maker", "where", "notes"); exec(msgLine(126998, s1, m)); }
+  if (variant & 4) { exec(msgLineV(126996, s2, prodBytes(prodFields(R, false)))); tN2kMsg m; SetN2kPGN126998(m, "m2", "", "n2"); exec(msgLine(126998, s2, m)); }
+  for (int i = 0; i < 7; i++) tick(s1);
+  exec("msg 126464 " + std::to_string(s1) + " 0010f001"); tick(s1); exec("msg 126464 " + std::to_string(s1) + " 0110f00104ea00"); 
+  for (int i = 0; i < 3; i++) tick(s1);
+  exec("bysrc " + std::to_string(s1)); exec("count"); exec("upd");
+}
+
 // small-scope exhaustive: every sequence of length `len` over claims {2 sources x 3 names(0,A,B)} + data from the 2 sources
 static void exhaustive(int len) {
   std::vector<std::string> alpha;
@@ -621,6 +641,8 @@ int main(int argc, char **argv) {
   C.sample("product information stories: known P, then {address move | nothing | re-claim | displaced and moved} x first message after = {P byte-identically | a different record | "
            "P with exactly one field changed: each number, each of the 4 strings in a middle character / the last character / the length}, then a different Q and P again; "
            "bysrc/byname/upd after every message");
+  for (int rep = 0; rep < (C.thorough ? 4 : 1); rep++) for (int v = 0; v < 32; v++) requestStory(R, v);
+  C.sample("request sequencing stories: information delivered or withheld step by step over virtual time (1 or 2 devices), all three request loops and their limits of 4");
   int ncases = C.thorough ? 900 : 120;
   for (int i = 0; i < ncases; i++) randomCase(R, C.thorough ? 60 + (int)R.below(260) : 40 + (int)R.below(160));
   C.sample("random histories: 2..252 sources, 3..15 NAMEs incl. 0/all-ones/1, shared manufacturer codes; claims new/move/takeover/re-claim/short, 126996/126998/126464 "
